@@ -1,4 +1,5 @@
 import PebblesVerif.Model.Plan
+import PebblesVerif.Gen.Sanitize
 /-!
 `planner.sanitizeSelectionSet` with the IN-PLACE rewriting the Go code performs
 (planner/sanitize_selection_set.go): `s.SelectionSet = childSelectionSet` rewrites the field node
@@ -154,9 +155,11 @@ def planShared (c : PCtx) (op : Op) : G (List Step × Scrub) := do
   let steps ← planRoot c ss
   .ok (steps, sf)
 
-/-- the planner model the correspondence runs: literal sharing where a fragment is expanded more
-    than once, the value-level model of the theorems everywhere else -/
+/-- the planner model the correspondence runs. While the sanitiser wrote into the document's nodes
+    (regenerated fact `Gen.Sanitize.copiesNodes = false`) an operation that expands one fragment more
+    than once needed the literal sharing model; since the repair the sanitiser works on copies and
+    the value-level model of the theorems (`plan`) is the model of every operation. -/
 def planFor (c : PCtx) (op : Op) : G (List Step × Scrub) :=
-  if multiSpread op then planShared c op else plan c op
+  if multiSpread op && !Gen.Sanitize.copiesNodes then planShared c op else plan c op
 
 end PebblesVerif
